@@ -566,9 +566,49 @@ func runC18(c *Ctx) {
 				netw = ef
 			}
 		}
+		// a constructor whose body runs in place (through a helper outside the vocabulary) shows as the
+		// store of the rule text into a fresh rule of its type
+		inPlace := func(typ string) *Effect {
+			for i := range s.Effects {
+				ef := &s.Effects[i]
+				if ef.Kind != "store" || ef.Addr.Op != "faddr" || ef.Addr.Aux != "RuleText" || !(ef.Addr.Args[0].Op == "alloc" || ef.Addr.Args[0].Op == "new") {
+					continue
+				}
+				pt, ok := ef.Addr.Args[0].Typ.(*types.Pointer)
+				if !ok {
+					continue
+				}
+				nt, ok := pt.Elem().(*types.Named)
+				if !ok || nt.Obj().Name() != typ {
+					continue
+				}
+				var id *E
+				for _, e2 := range s.Effects {
+					if e2.Kind == "store" && e2.Addr.Op == "faddr" && e2.Addr.Aux == "FilterListID" && e2.Addr.Args[0] == ef.Addr.Args[0] {
+						id = e2.Val
+					}
+				}
+				if id == nil {
+					continue
+				}
+				return &Effect{Kind: "call", Cond: ef.Cond, Pos: ef.Pos, Call: u.mk("call", "in place:New"+typ, nil, ef.Val, id)}
+			}
+			return nil
+		}
+		if cosm == nil {
+			cosm = inPlace("CosmeticRule")
+		}
+		if host == nil {
+			host = inPlace("HostRule")
+		}
+		if netw == nil {
+			netw = inPlace("NetworkRule")
+		}
 		bad := ""
 		if cosm == nil || host == nil || netw == nil {
 			bad = "UNDECIDED: NewRule does not call all three constructors"
+		} else if strings.HasPrefix(host.Call.Aux, "in place:") {
+			bad = "UNDECIDED: the hosts constructor runs in place; its error result is not a value of NewRule"
 		} else {
 			hostErr := u.mk("extract", "1", nil, host.Call)
 			failed := u.bdd.Not(u.ToBool(u.Eq(hostErr, u.mk("nil", "", nil))))
@@ -639,7 +679,7 @@ func runC18(c *Ctx) {
 	n := 0
 	for _, fn := range c.P.AllLibFuncs() {
 		if rhr != nil && len(callsTo(fn, rhr)) > 0 {
-			n += guardedBy(c, "C18.R7", fn, hm, 1, "hostname")
+			n += guardedBy(c, "C18.R7", fn, hm, stringParamIndex(fn), "hostname")
 		}
 	}
 	if n == 0 {
